@@ -121,6 +121,59 @@ pub fn c15_eval(bytes: &[u8], uni: &'static str, acc: &mut Acc) {
     }
 }
 
+/// the entry points below the document level: value, key, key path, the two value deserializers and the standalone
+/// date-time parser.  Whatever they reject must come with an error of the same quality.
+pub fn c15_value_eval(bytes: &[u8], uni: &'static str, acc: &mut Acc) {
+    let Ok(text) = std::str::from_utf8(bytes) else { return };
+    let r = guarded(|| -> Result<usize, (Option<&'static str>, String)> {
+        use serde::Deserialize as _;
+        let mut rejected = 0;
+        if let Err(e) = text.parse::<toml_edit::Value>() {
+            rejected += 1;
+            check_error(text, e.message(), e.span(), &e.to_string(), &format!("{:?}", e), "Value::from_str")?;
+        }
+        if let Err(e) = text.parse::<toml_edit::Key>() {
+            rejected += 1;
+            check_error(text, e.message(), e.span(), &e.to_string(), &format!("{:?}", e), "Key::from_str")?;
+        }
+        if let Err(e) = toml_edit::Key::parse(text) {
+            rejected += 1;
+            check_error(text, e.message(), e.span(), &e.to_string(), &format!("{:?}", e), "Key::parse")?;
+        }
+        if let Err(e) = text.parse::<toml_edit::de::ValueDeserializer>() {
+            rejected += 1;
+            check_error(text, e.message(), e.span(), &e.to_string(), &format!("{:?}", e), "toml_edit::de::ValueDeserializer::from_str")?;
+        }
+        if let Err(e) = toml::Value::deserialize(toml::de::ValueDeserializer::new(text)) {
+            rejected += 1;
+            check_error(text, e.message(), e.span(), &e.to_string(), &format!("{:?}", e), "toml::de::ValueDeserializer")?;
+        }
+        if let Err(e) = text.parse::<toml_datetime::Datetime>() {
+            rejected += 1;
+            if e.to_string().trim().is_empty() {
+                return Err((None, "Datetime::from_str: error with an empty rendering".into()));
+            }
+        }
+        Ok(rejected)
+    });
+    match r {
+        Ok(Ok(0)) => acc.bump("accepted-by-every-entry-point"),
+        Ok(Ok(_)) => {
+            acc.bump("rejected-with-located-error");
+            acc.nontrivial(bytes);
+            acc.sample(|| format!("{:?}", text));
+        }
+        Ok(Err((class, e))) => {
+            acc.nontrivial(bytes);
+            acc.viol(uni, text.to_string(), class, e)
+        }
+        Err(p) => {
+            acc.panics += 1;
+            acc.viol(uni, text.to_string(), None, format!("panic while building / rendering the error: {}", p));
+        }
+    }
+}
+
 // ---- (b) typed mismatches
 
 #[derive(Deserialize, Debug)]
@@ -183,6 +236,8 @@ fn layouts(lit: &str) -> Vec<(String, &'static str, Vec<&'static str>)> {
         (format!("t = {{ x = {} }}\n", lit), "L1", vec!["t", "x"]),
         (format!("[t.t]\n\"x\" = {}\n", lit), "L2", vec!["t", "t", "x"]),
         (format!("t.t.x = {}\n", lit), "L2", vec!["t", "t", "x"]),
+        (format!("t = {{ t = {{ x = {} }} }}\n", lit), "L2", vec!["t", "t", "x"]),
+        (format!("t = {{ t.x = {} }} # é\n", lit), "L2", vec!["t", "t", "x"]),
         (format!("# é\n[[a]]\nx = {}\n", lit), "A1", vec!["a", "x"]),
         (format!("a = [{{x = {}}}]\n", lit), "A1", vec!["a", "x"]),
         (format!("x = [{}]\n", lit), "V1", vec!["x"]),
@@ -198,19 +253,95 @@ fn layouts(lit: &str) -> Vec<(String, &'static str, Vec<&'static str>)> {
 
 const LITS: [(&str, &str); 9] = [("1", "int"), ("'é'", "str"), ("true", "bool"), ("1.5", "float"), ("[1]", "arr"), ("1979-05-27", "dt"), ("{x = 1}", "tab"), ("\"Unit\"", "str"), ("{New = 1}", "tab")];
 
-macro_rules! try_targets {
-    ($shape:ident, $doc:expr, $f:expr) => {{
-        $f(stringify!(i64), toml::from_str::<$shape<i64>>($doc).map(|_| ()), toml::from_str::<toml::Value>($doc).unwrap().try_into::<$shape<i64>>().map(|_| ()));
-        $f(stringify!(String), toml::from_str::<$shape<String>>($doc).map(|_| ()), toml::from_str::<toml::Value>($doc).unwrap().try_into::<$shape<String>>().map(|_| ()));
-        $f(stringify!(bool), toml::from_str::<$shape<bool>>($doc).map(|_| ()), toml::from_str::<toml::Value>($doc).unwrap().try_into::<$shape<bool>>().map(|_| ()));
-        $f(stringify!(f64), toml::from_str::<$shape<f64>>($doc).map(|_| ()), toml::from_str::<toml::Value>($doc).unwrap().try_into::<$shape<f64>>().map(|_| ()));
-        $f(stringify!(u8), toml::from_str::<$shape<u8>>($doc).map(|_| ()), toml::from_str::<toml::Value>($doc).unwrap().try_into::<$shape<u8>>().map(|_| ()));
-        $f(stringify!(Vec<i64>), toml::from_str::<$shape<Vec<i64>>>($doc).map(|_| ()), toml::from_str::<toml::Value>($doc).unwrap().try_into::<$shape<Vec<i64>>>().map(|_| ()));
-        $f(stringify!(Datetime), toml::from_str::<$shape<toml_datetime::Datetime>>($doc).map(|_| ()), toml::from_str::<toml::Value>($doc).unwrap().try_into::<$shape<toml_datetime::Datetime>>().map(|_| ()));
-        $f(stringify!(L0<i64>), toml::from_str::<$shape<L0<i64>>>($doc).map(|_| ()), toml::from_str::<toml::Value>($doc).unwrap().try_into::<$shape<L0<i64>>>().map(|_| ()));
-        $f(stringify!(En), toml::from_str::<$shape<En>>($doc).map(|_| ()), toml::from_str::<toml::Value>($doc).unwrap().try_into::<$shape<En>>().map(|_| ()));
+/// what a route reports: (route, has the source text, result)
+pub struct EI {
+    message: String,
+    span: Option<std::ops::Range<usize>>,
+    shown: String,
+    dbg: String,
+}
+fn ei_t(e: toml::de::Error) -> EI {
+    EI { message: e.message().to_string(), span: e.span(), shown: e.to_string(), dbg: format!("{:?}", e) }
+}
+fn ei_e(e: toml_edit::de::Error) -> EI {
+    EI { message: e.message().to_string(), span: e.span(), shown: e.to_string(), dbg: format!("{:?}", e) }
+}
+type RouteRes = (&'static str, bool, Result<(), EI>);
+
+/// every decoding route for a whole document into `$ty`
+macro_rules! doc_routes {
+    ($ty:ty, $doc:expr) => {{
+        use serde::Deserialize as _;
+        let doc: &str = $doc;
+        let mut v: Vec<RouteRes> = Vec::new();
+        v.push(("toml::from_str", true, toml::from_str::<$ty>(doc).map(|_| ()).map_err(ei_t)));
+        v.push(("toml_edit::de::from_str", true, toml_edit::de::from_str::<$ty>(doc).map(|_| ()).map_err(ei_e)));
+        v.push(("toml_edit::de::from_slice", true, toml_edit::de::from_slice::<$ty>(doc.as_bytes()).map(|_| ()).map_err(ei_e)));
+        v.push(("toml_edit::de::from_document(ImDocument)", true, toml_edit::de::from_document::<$ty>(toml_edit::ImDocument::parse(doc.to_string()).unwrap()).map(|_| ()).map_err(ei_e)));
+        v.push(("str::parse::<toml_edit::de::Deserializer>", true, doc.parse::<toml_edit::de::Deserializer>().map_err(ei_e).and_then(|d| <$ty>::deserialize(d).map(|_| ()).map_err(ei_e))));
+        v.push(("toml_edit::de::Deserializer::parse", true, toml_edit::de::Deserializer::parse(doc).map_err(ei_e).and_then(|d| <$ty>::deserialize(d).map(|_| ()).map_err(ei_e))));
+        v.push(("toml::Deserializer::new", true, <$ty>::deserialize(toml::Deserializer::new(doc)).map(|_| ()).map_err(ei_t)));
+        v.push(("toml::Value::try_into", false, toml::from_str::<toml::Value>(doc).unwrap().try_into::<$ty>().map(|_| ()).map_err(ei_t)));
+        v.push(("toml::Table::try_into", false, toml::from_str::<toml::Table>(doc).unwrap().try_into::<$ty>().map(|_| ()).map_err(ei_t)));
+        v.push(("toml_edit::de::from_document(DocumentMut)", false, toml_edit::de::from_document::<$ty>(doc.parse::<toml_edit::DocumentMut>().unwrap()).map(|_| ()).map_err(ei_e)));
+        v
     }};
 }
+
+/// routes that start from ONE value of the document (root key `$key`), decoded into `$ty`: none of them has the
+/// source text, whether or not the value still carries its spans
+macro_rules! value_routes {
+    ($ty:ty, $doc:expr, $key:expr) => {{
+        use serde::de::IntoDeserializer as _;
+        use serde::Deserialize as _;
+        let doc: &str = $doc;
+        let mut v: Vec<RouteRes> = Vec::new();
+        let im = toml_edit::ImDocument::parse(doc.to_string()).unwrap();
+        if let Some(val) = im.get($key).and_then(|i| i.as_value()) {
+            v.push(("spanned Value (from ImDocument).into_deserializer()", false, <$ty>::deserialize(val.clone().into_deserializer()).map(|_| ()).map_err(ei_e)));
+            let dm = im.clone().into_mut();
+            let val2 = dm.get($key).and_then(|i| i.as_value()).unwrap().clone();
+            v.push(("despanned Value (from DocumentMut).into_deserializer()", false, <$ty>::deserialize(val2.clone().into_deserializer()).map(|_| ()).map_err(ei_e)));
+            let mut bare = val2.clone();
+            bare.decor_mut().clear();
+            let text = bare.to_string();
+            v.push(("toml::de::ValueDeserializer::new(text)", false, <$ty>::deserialize(toml::de::ValueDeserializer::new(text.trim())).map(|_| ()).map_err(ei_t)));
+            v.push(("str::parse::<toml_edit::de::ValueDeserializer>", false, text.trim().parse::<toml_edit::de::ValueDeserializer>().map_err(ei_e).and_then(|d| <$ty>::deserialize(d).map(|_| ()).map_err(ei_e))));
+            if let Ok(tv) = toml::Value::try_from(toml::from_str::<toml::Table>(doc).unwrap().get($key).unwrap()) {
+                v.push(("toml::Value (sub-value).try_into", false, tv.try_into::<$ty>().map(|_| ()).map_err(ei_t)));
+            }
+        }
+        v
+    }};
+}
+
+macro_rules! try_targets {
+    ($shape:ident, $doc:expr, $f:expr) => {{
+        $f(stringify!(i64), doc_routes!($shape<i64>, $doc));
+        $f(stringify!(String), doc_routes!($shape<String>, $doc));
+        $f(stringify!(bool), doc_routes!($shape<bool>, $doc));
+        $f(stringify!(f64), doc_routes!($shape<f64>, $doc));
+        $f(stringify!(u8), doc_routes!($shape<u8>, $doc));
+        $f(stringify!(Vec<i64>), doc_routes!($shape<Vec<i64>>, $doc));
+        $f(stringify!(Datetime), doc_routes!($shape<toml_datetime::Datetime>, $doc));
+        $f(stringify!(L0<i64>), doc_routes!($shape<L0<i64>>, $doc));
+        $f(stringify!(En), doc_routes!($shape<En>, $doc));
+    }};
+}
+macro_rules! try_value_targets {
+    ($shape:ident, $doc:expr, $key:expr, $f:expr) => {{
+        $f(stringify!(i64), value_routes!($shape<i64>, $doc, $key));
+        $f(stringify!(String), value_routes!($shape<String>, $doc, $key));
+        $f(stringify!(bool), value_routes!($shape<bool>, $doc, $key));
+        $f(stringify!(f64), value_routes!($shape<f64>, $doc, $key));
+        $f(stringify!(u8), value_routes!($shape<u8>, $doc, $key));
+        $f(stringify!(Vec<i64>), value_routes!($shape<Vec<i64>>, $doc, $key));
+        $f(stringify!(Datetime), value_routes!($shape<toml_datetime::Datetime>, $doc, $key));
+        $f(stringify!(L0<i64>), value_routes!($shape<L0<i64>>, $doc, $key));
+        $f(stringify!(En), value_routes!($shape<En>, $doc, $key));
+    }};
+}
+type VecL0<T> = Vec<L0<T>>;
 
 pub fn typed(rep: &mut Report) {
     let t0 = std::time::Instant::now();
@@ -220,6 +351,7 @@ pub fn typed(rep: &mut Report) {
             cases.push(format!("{}\u{1}{}\u{1}{}\u{1}{}", doc, shape, path.join("."), lit));
         }
     }
+    let pairs = std::sync::atomic::AtomicU64::new(0);
     let f = |case: &str, acc: &mut Acc| {
         let parts: Vec<&str> = case.split('\u{1}').collect();
         let (doc, shape, path, lit) = (parts[0], parts[1], parts[2], parts[3]);
@@ -260,59 +392,86 @@ pub fn typed(rep: &mut Report) {
             node
         };
         let tok = node.span.expect("value token");
-        let mut check = |target: &str, with_src: Result<(), toml::de::Error>, without: Result<(), toml::de::Error>| {
-            acc.evals += 1;
-            let label = format!("{:?} into {}<{}>", doc, shape, target);
-            match (&with_src, &without) {
-                (Ok(()), Ok(())) => acc.bump("types-compatible"),
-                (Err(e), Err(e2)) => {
-                    acc.nontrivial(label.as_bytes());
-                    acc.bump("mismatch-located");
-                    let r = check_error(doc, e.message(), e.span(), &e.to_string(), &format!("{:?}", e), "toml::from_str");
-                    if let Err((c, m)) = r {
-                        acc.viol("U-typed", label.clone(), c, m);
-                        return;
+        let scalar_lit = !matches!(lit, "[1]" | "{x = 1}" | "{New = 1}");
+        // `rel_path`: the key path as seen from where the route starts (whole document or one root value)
+        let judge = |acc: &mut Acc, target: &str, rel_path: &str, routes: Vec<RouteRes>| {
+            if routes.is_empty() {
+                return;
+            }
+            let oks = routes.iter().filter(|r| r.2.is_ok()).count();
+            if oks == routes.len() {
+                acc.evals += routes.len() as u64;
+                acc.bump("types-compatible");
+                return;
+            }
+            for (route, has_src, res) in routes {
+                acc.evals += 1;
+                pairs.fetch_add(1, std::sync::atomic::Ordering::Relaxed);
+                let label = format!("{:?} into {}<{}> via {}", doc, shape, target, route);
+                let e = match res {
+                    // whether the routes agree on success is C13's question, not this property's
+                    Ok(()) => {
+                        acc.bump("routes-disagree-on-success (left to C13)");
+                        continue;
                     }
-                    match e.span() {
-                        None => acc.viol("U-typed", label.clone(), None, format!("deserialization error without a span although the source is available: {}", e.message())),
+                    Err(e) => e,
+                };
+                acc.nontrivial(label.as_bytes());
+                if has_src {
+                    acc.bump("mismatch-located-by-span");
+                    if let Err((c, m)) = check_error(doc, &e.message, e.span.clone(), &e.shown, &e.dbg, route) {
+                        acc.viol("U-typed", label, c, m);
+                        continue;
+                    }
+                    match e.span {
+                        None => acc.viol("U-typed", label, None, format!("deserialization error without a span although the source is available: {}", e.message)),
                         Some(sp) => {
                             // the error may sit at the value under test or at something inside it (e.g. the element of an array)
                             let inside = sp.start >= tok.start && sp.end <= tok.end;
                             let exact = (sp.start, sp.end) == (tok.start, tok.end);
-                            let scalar_lit = !matches!(lit, "[1]" | "{x = 1}" | "{New = 1}");
                             if !(exact || (!scalar_lit && inside)) {
-                                acc.viol("U-typed", label.clone(), None, format!("error span {:?} is not the offending value's span {}..{} ({})", sp, tok.start, tok.end, e.message()));
-                                return;
+                                acc.viol("U-typed", label, None, format!("error span {:?} is not the offending value's span {}..{} ({})", sp, tok.start, tok.end, e.message));
                             }
                         }
                     }
-                    // without the source: key path
-                    let shown = e2.to_string();
-                    if e2.message().trim().is_empty() {
-                        acc.viol("U-typed", label.clone(), None, "try_into error with empty message".into());
-                    } else if !shown.contains(&format!("in `{}", path)) {
-                        acc.viol("U-typed", label, None, format!("try_into error does not carry the key path `{}`: {:?}", path, shown));
+                } else {
+                    acc.bump("mismatch-located-by-key-path");
+                    if e.message.trim().is_empty() {
+                        acc.viol("U-typed", label, None, "error with an empty message".into());
+                    } else if !rel_path.is_empty() && !e.shown.contains(&format!("in `{}", rel_path)) {
+                        acc.viol("U-typed", label, None, format!("the source text is not available on this route and the error does not carry the key path `{}`: {:?}", rel_path, e.shown));
                     }
                 }
-                // whether the two routes agree on success is C13's question, not this property's
-                _ => acc.bump("routes-disagree-on-success (left to C13)"),
             }
         };
+        {
+            let mut check = |target: &str, routes: Vec<RouteRes>| judge(acc, target, path, routes);
+            match shape {
+                "L0" => try_targets!(L0, doc, check),
+                "L1" => try_targets!(L1, doc, check),
+                "L2" => try_targets!(L2, doc, check),
+                "A1" => try_targets!(A1, doc, check),
+                "V1" => try_targets!(V1, doc, check),
+                "O1" => try_targets!(O1, doc, check),
+                "N1" => try_targets!(N1, doc, check),
+                "OA" => try_targets!(OA, doc, check),
+                _ => unreachable!(),
+            }
+        }
+        // the same mismatch reached from one root value (an inline table / array) instead of from the document
+        let rel = keys[1..].join(".");
+        let mut check = |target: &str, routes: Vec<RouteRes>| judge(acc, target, &rel, routes);
         match shape {
-            "L0" => try_targets!(L0, doc, check),
-            "L1" => try_targets!(L1, doc, check),
-            "L2" => try_targets!(L2, doc, check),
-            "A1" => try_targets!(A1, doc, check),
-            "V1" => try_targets!(V1, doc, check),
-            "O1" => try_targets!(O1, doc, check),
-            "N1" => try_targets!(N1, doc, check),
-            "OA" => try_targets!(OA, doc, check),
-            _ => unreachable!(),
+            "L1" => try_value_targets!(L0, doc, keys[0], check),
+            "L2" => try_value_targets!(L1, doc, keys[0], check),
+            "A1" => try_value_targets!(VecL0, doc, keys[0], check),
+            _ => {}
         }
     };
     let (total, mut acc) = sweep_list(&cases, &f);
-    acc.evals -= total; // sweep_list counted the seed lines; the closure counted the real (document, target) pairs
-    rep.absorb("U-typed", "9 literals x 17 layouts (inline, dotted, header, nested, array of tables, Option<struct>, newtype, Option<Vec<Option<struct>>>, multi-byte neighbours) x 9 target types, through toml::from_str and Value::try_into", total * 9, true, t0, acc);
+    acc.evals -= total; // sweep_list counted the seed lines; the closure counted the real (document, target, route) triples
+    let n = acc.evals;
+    rep.absorb("U-typed", "9 literals x 19 layouts (inline, dotted, header, nested, array of tables, Option<struct>, newtype, Option<Vec<Option<struct>>>, multi-byte neighbours) x 9 target types x every decoding route (7 with the source text: span demanded; 3 document routes and 5 single-value routes without it: key path demanded)", n, true, t0, acc);
 }
 
 /// multi-byte seeds: every truncation and every single-character edit
@@ -358,7 +517,7 @@ pub fn c15(tier: Tier) -> i32 {
         "every rejected text of each universe: TomlError and toml::de::Error must have a non-empty message, a span in bounds on char boundaries, panic-free Display/Debug, and a rendered 'line L, column C' equal to the reference position of span.start (characters, not bytes; one past the last line's end at end of input); every (document, mismatching target type) pair of the typed family: from_str error carries the offending value's span, Value::try_into error carries the key path; non-trivial = distinct rejected texts / failing pairs",
     );
     rep.assumptions = vec!["the reference position is computed independently: line = 1 + LFs before the offset, column = 1 + characters since the line start".into()];
-    docu::run(&mut rep, tier, &["tok", "ctx", "corpus", "byte", "num", "dt", "stmt-small"], &c15_eval);
+    docu::run(&mut rep, tier, &["tok", "ctx", "corpus", "byte", "num", "dt", "stmt-small", "cp", "utf8"], &c15_eval);
     {
         let t0 = std::time::Instant::now();
         let cases = mb_cases();
@@ -366,6 +525,7 @@ pub fn c15(tier: Tier) -> i32 {
         let (total, acc) = sweep_list(&cases, &f);
         rep.absorb("U-mb", "4 multi-byte seed documents: every truncation and every single-character insert / substitute (SIGMA14) / delete", total, true, t0, acc);
     }
+    docu::run(&mut rep, tier, &["raw", "vtok"], &c15_value_eval);
     typed(&mut rep);
     rep.finish()
 }
